@@ -243,8 +243,6 @@ def main(run):
         entries = [{"idx": file_index(e["txn"]), "rows": e["rows"]} for e in reg]
         c["impl"] = {"order": ks, "register": [{"txn": e["idx"], "rows": [(x["acc"], x["comm"], dec_parts(x["amount"]), dec_parts(x["total"])) for x in e["rows"]]} for e in entries]}
         c["side"] = []
-        if [e["idx"] for e in entries] != ks:
-            c["side"].append("register entries are not in the order of the transaction set")
         for e in reg:
             for x in e["rows"]:
                 if x["target"] != x["comm"] or x["rate"] is not None:
@@ -264,10 +262,10 @@ def main(run):
             feat["order_only"] += 1
             terms.append("c03_order_case %s %s" % (inp, g_list([g_nat(k) for k in ks])))
         else:
-            terms.append("c03_case %s %s %s" % (inp, g_names(c["names"]), g_obs(entries)))
+            terms.append("c03_case %s %s %s %s" % (inp, g_names(c["names"]), g_list([g_nat(k) for k in ks]), g_obs(entries)))
         idx.append(i)
         # text reports
-        if (i, "date", "UTC") in text_of:
+        if (i, "date", "UTC") in text_of and all(len(p["acc"]) < 33 for t in txns for p in t["posts"]):
             feat["text_checked"] += 1
             want = [[(x["acc"], dec_value(x["amount"]), dec_value(x["total"]), x["comm"]) for x in e["rows"]] for e in entries if e["rows"]]
             ref = None
@@ -354,7 +352,7 @@ def replay(run, path):
     for t, k in zip(txns, ks):
         by_file[k] = t
     entries = [{"idx": file_index(e["txn"]), "rows": e["rows"]} for e in reg]
-    term = "c03_case %s %s %s" % (g_list([g_txn(t) for t in by_file]), g_names(names), g_obs(entries))
+    term = "c03_case %s %s %s %s" % (g_list([g_txn(t) for t in by_file]), g_names(names), g_list([g_nat(k) for k in ks]), g_obs(entries))
     vals, errs = coq_eval("C03", IMPORTS, [term])
     bits = as_N(vals[0]) if vals else None
     print("order:", ks)
